@@ -222,6 +222,35 @@ class World:
                 return f
         raise Unsupported(f"{outer_qualname} has no nested function {name}")
 
+    def mark_shared_state(self):
+        """Containers that live in a module or class namespace outlive a call: code that *mutates* one keeps state between
+        calls (a cache, a registry on the side) which no single-call contract over the documented state can see.  They are
+        recorded here; the interpreter refuses to mutate them (the unit is then outside the subset, not silently wrong)."""
+        self.shared_ids = set()
+        seen = set()
+
+        def mark(v):
+            if isinstance(v, LibObj) and v.kind == "local_dict":
+                v.shared = True
+            elif isinstance(v, (dict, list, set)):
+                self.shared_ids.add(id(v))
+
+        def walk_class(c):
+            if id(c) in seen:
+                return
+            seen.add(id(c))
+            for v in c.ns.values():
+                mark(v)
+        for m in self.modules.values():
+            for v in getattr(m, "ns", {}).values():
+                mark(v)
+                if isinstance(v, ClassVal):
+                    walk_class(v)
+
+    def check_not_shared(self, container, what):
+        if getattr(container, "shared", False) or id(container) in getattr(self, "shared_ids", ()):
+            raise Unsupported(f"{what} of a module-level / class-level container: state kept between calls outside the documented state")
+
     def make_harness(self, name, src, module=PKG + ".gateway"):
         """A sidecar driver function (not repository code): it only *calls* the code under contract."""
         tree = ast.parse(src)
@@ -250,4 +279,5 @@ def load_world(repo=None):
     for m in ("gateway", "persistence", "transport", "transport.tcp", "transport.serial", "transport.mqtt",
               "model.protocol", "model.node", "model.message", "exceptions"):
         w.load(f"{PKG}.{m}")
+    w.mark_shared_state()
     return w
